@@ -24,10 +24,12 @@
      CloseFlagReset       HTTP/1: parsing the next request resets the "close after this response" flag
      LostReplyAfterMove   a reply of a stream of the old process is dropped once the connection has moved
      ReplyTwice           ... or is written by both processes
-     ExitBeforeTransfer   the old process leaves while it still owns a transferable connection *)
+     ExitBeforeTransfer   the old process leaves while it still owns a transferable connection
+     ForwardedResponseConsumesRoute   the new process forgets where to deliver forwarded answers after the first one
+                          (network.transferFindConnection: the map entry must survive every forwarded write) *)
 EXTENDS Integers, Sequences, FiniteSets, TLC, Json
 
-CONSTANTS Protos, MaxReq, Defects, EmitCases
+CONSTANTS Protos, MaxReq, MaxInflight, MaxDone, Defects, EmitCases
 ReqLen == 4
 SeqTo(n) == [i \in 1..n |-> i]
 
@@ -39,30 +41,39 @@ VARIABLES proto, owner, stop, closeFlag, oldAlive,
           by,         \* per request: the process that decoded it
           replies,    \* per request: complete replies seen by the client
           told,       \* the client was told to stop using the connection (Connection: close)
-          repliedAfterNotice, lost, killed, follow, fresh
+          repliedAfterNotice, lost, killed, follow, fresh,
+          route,      \* the new process can still deliver what the old process forwards for the moved connection
+          order       \* the order in which the upstream answers the requests in flight at the move: "fifo" | "lifo"
 
-vars == <<proto, owner, stop, closeFlag, oldAlive, k, sent, rbuf, stream, by, replies, told, repliedAfterNotice, lost, killed, follow, fresh>>
+vars == <<proto, owner, stop, closeFlag, oldAlive, k, sent, rbuf, stream, by, replies, told, repliedAfterNotice, lost, killed, follow, fresh, route, order>>
 
 Reqs == 1..MaxReq
 Transferable == proto = "bolt"
 Held == owner \in {"old", "new"}
-Busy == sent > 0 \/ \E r \in Reqs : stream[r] \in {"open", "part"}
+InFlight == {r \in Reqs : stream[r] \in {"open", "part"}}
+Busy == sent > 0 \/ InFlight # {}
 
 Init == /\ proto \in Protos /\ owner = "old" /\ stop = "no" /\ closeFlag = FALSE /\ oldAlive = TRUE
         /\ k = 1 /\ sent = 0 /\ rbuf = <<>>
         /\ stream = [r \in Reqs |-> "none"] /\ by = [r \in Reqs |-> "none"] /\ replies = [r \in Reqs |-> 0]
         /\ told = FALSE /\ repliedAfterNotice = FALSE /\ lost = FALSE /\ killed = FALSE /\ follow = "none" /\ fresh = FALSE
+        /\ route = TRUE /\ order = "fifo"
 
 U(vs) == UNCHANGED vs
 
 (* ---- client *)
+\* HTTP/1 is ping-pong; an xprotocol connection is multiplexed: up to MaxInflight requests wait for their answers
 Send == /\ Held /\ ~told /\ k <= MaxReq /\ sent < ReqLen
-        /\ stream[k] = "none" /\ (IF k = 1 THEN TRUE ELSE stream[k - 1] = "done")      \* sequential requests (ping-pong client)
+        /\ stream[k] = "none"
+        /\ IF k = 1 THEN TRUE
+           ELSE IF proto = "bolt" THEN stream[k - 1] # "none" /\ Cardinality(InFlight) < MaxInflight /\ ~\E r \in Reqs : stream[r] = "part"
+           ELSE stream[k - 1] = "done"
+        /\ UNCHANGED <<route, order>>
         /\ sent' = sent + 1 /\ rbuf' = Append(rbuf, sent + 1) /\ fresh' = FALSE
         /\ U(<<proto, owner, stop, closeFlag, oldAlive, k, stream, by, replies, told, repliedAfterNotice, lost, killed, follow>>)
 
 ClientClose == /\ Held /\ follow = "close" /\ stop \in {"seen", "moved"} /\ ~Busy
-               /\ owner' = "closed" /\ fresh' = FALSE
+               /\ owner' = "closed" /\ fresh' = FALSE /\ UNCHANGED <<route, order>>
                /\ U(<<proto, stop, closeFlag, oldAlive, k, sent, rbuf, stream, by, replies, told, repliedAfterNotice, lost, killed, follow>>)
 
 (* ---- the process holding the connection *)
@@ -76,21 +87,26 @@ Decode == /\ Held /\ Alive(owner) /\ Len(rbuf) >= 1 /\ sent = ReqLen
                ELSE \* what arrived is not a frame: decode error, connection closed, request lost
                     /\ owner' = "closed" /\ lost' = TRUE
                     /\ U(<<stream, by, rbuf, sent, k, closeFlag>>)
-          /\ fresh' = FALSE
+          /\ fresh' = FALSE /\ UNCHANGED <<route, order>>
           /\ U(<<proto, stop, oldAlive, replies, told, repliedAfterNotice, killed, follow>>)
 
-PartReply(r) == /\ stream[r] = "open" /\ Alive(by[r]) /\ Held
-                /\ stream' = [stream EXCEPT ![r] = "part"] /\ fresh' = FALSE
+\* a response written in part (the client reads slowly): the runs park it only when it is alone on the connection
+PartReply(r) == /\ stream[r] = "open" /\ Alive(by[r]) /\ Held /\ InFlight = {r} /\ sent = 0
+                /\ stream' = [stream EXCEPT ![r] = "part"] /\ fresh' = FALSE /\ UNCHANGED <<route, order>>
                 /\ U(<<proto, owner, stop, closeFlag, oldAlive, k, sent, rbuf, by, replies, told, repliedAfterNotice, lost, killed, follow>>)
 
 Reply(r) == /\ stream[r] \in {"open", "part"} /\ Alive(by[r]) /\ Held
             /\ stream' = [stream EXCEPT ![r] = "done"]
             /\ LET moved == by[r] = "old" /\ owner = "new"
                    n == CASE moved /\ "LostReplyAfterMove" \in Defects -> 0
+                          [] moved /\ ~route -> 0
                           [] moved /\ "ReplyTwice" \in Defects -> 2
                           [] OTHER -> 1
                IN /\ replies' = [replies EXCEPT ![r] = @ + n]
                   /\ lost' = (lost \/ n = 0)
+                  \* each answer of an old stream is forwarded in its own message and looked up by the connection's id
+                  /\ route' = IF moved /\ "ForwardedResponseConsumesRoute" \in Defects THEN FALSE ELSE route
+            /\ order' = order
             /\ repliedAfterNotice' = (repliedAfterNotice \/ stop \in {"seen", "moved"})
             /\ IF proto = "http1" /\ closeFlag
                  THEN told' = TRUE /\ owner' = "closed"         \* "Connection: close", then the proxy closes
@@ -100,11 +116,12 @@ Reply(r) == /\ stream[r] \in {"open", "part"} /\ Alive(by[r]) /\ Held
 
 (* ---- the switch *)
 Stop == /\ stop = "no" /\ stop' = "called" /\ fresh' = TRUE
-        /\ follow' \in {"next", "close"}
+        /\ follow' \in {"next", "close"} /\ order' \in {"fifo", "lifo"} /\ route' = route
+        /\ Cardinality({r \in Reqs : stream[r] = "done"}) <= MaxDone
         /\ U(<<proto, owner, closeFlag, oldAlive, k, sent, rbuf, stream, by, replies, told, repliedAfterNotice, lost, killed>>)
 
 Notice == /\ stop = "called" /\ owner = "old"
-          /\ stop' = "seen" /\ closeFlag' = (proto = "http1") /\ fresh' = FALSE
+          /\ stop' = "seen" /\ closeFlag' = (proto = "http1") /\ fresh' = FALSE /\ UNCHANGED <<route, order>>
           /\ U(<<proto, owner, oldAlive, k, sent, rbuf, stream, by, replies, told, repliedAfterNotice, lost, killed, follow>>)
 
 Transfer == /\ stop = "seen" /\ Transferable /\ owner = "old" /\ oldAlive
@@ -114,7 +131,7 @@ Transfer == /\ stop = "seen" /\ Transferable /\ owner = "old" /\ oldAlive
                  THEN owner' = "closed" /\ lost' = TRUE /\ rbuf' = rbuf
                  ELSE /\ owner' = "new" /\ lost' = lost
                       /\ rbuf' = IF "BufferNotShipped" \in Defects THEN <<>> ELSE rbuf
-            /\ fresh' = FALSE
+            /\ fresh' = FALSE /\ route' = TRUE /\ order' = order
             /\ U(<<proto, closeFlag, oldAlive, k, sent, stream, by, replies, told, repliedAfterNotice, killed, follow>>)
 
 \* the old process leaves when its timers are up; the runs drive it there with nothing in progress
@@ -122,7 +139,7 @@ OldExit == /\ oldAlive /\ stop \in {"seen", "moved"} /\ ~Busy
            /\ ~Transferable \/ owner # "old" \/ "ExitBeforeTransfer" \in Defects
            /\ oldAlive' = FALSE
            /\ IF owner = "old" THEN owner' = "closed" /\ killed' = ~told ELSE owner' = owner /\ killed' = killed
-           /\ fresh' = FALSE
+           /\ fresh' = FALSE /\ UNCHANGED <<route, order>>
            /\ U(<<proto, stop, closeFlag, k, sent, rbuf, stream, by, replies, told, repliedAfterNotice, lost, follow>>)
 
 Next == Send \/ ClientClose \/ Decode \/ Stop \/ Notice \/ Transfer \/ OldExit \/ \E r \in Reqs : PartReply(r) \/ Reply(r)
@@ -133,6 +150,7 @@ TypeOK == /\ proto \in Protos /\ owner \in {"old", "new", "closed"} /\ stop \in 
           /\ sent \in 0..ReqLen /\ k \in 1..(MaxReq + 1)
 \* the unconsumed bytes are exactly what the client has written of the current request, in order
 BytesIntact == Held => rbuf = SeqTo(sent)
+\* every request written before, during or after the move gets its own answer exactly once
 OneReply == \A r \in Reqs : replies[r] <= 1 /\ (stream[r] = "done" /\ ~lost => replies[r] = 1)
 NoLoss == ~lost
 \* a transferable connection outlives the old process
@@ -143,10 +161,10 @@ Released == ~(killed /\ repliedAfterNotice)
 DecodedBy == \A r \in Reqs : by[r] = "new" => (Transferable /\ stop = "moved")
 
 (* ---- case emission: the picture when StopConnection is called *)
-Phase == CASE \E r \in Reqs : stream[r] = "part" -> "resp"
-           [] \E r \in Reqs : stream[r] = "open" -> "wait"
-           [] sent = 1 -> "cuthead" [] sent = 2 -> "cuthdr" [] sent = 3 -> "cutbody"
-           [] OTHER -> "idle"
 Done == Cardinality({r \in Reqs : stream[r] = "done"})
-Emit == (EmitCases /\ fresh) => PrintT(<<"CASE", ToJson([proto |-> proto, phase |-> Phase, done |-> Done, follow |-> follow])>>)
+CaseOf == [proto |-> proto, done |-> Done, inflight |-> Cardinality(InFlight),
+           cut |-> IF sent \in 1..3 THEN sent ELSE 0,
+           resp |-> \E r \in Reqs : stream[r] = "part",
+           follow |-> follow, order |-> order]
+Emit == (EmitCases /\ fresh /\ sent < ReqLen) => PrintT(<<"CASE", ToJson(CaseOf)>>)
 ====
